@@ -577,3 +577,133 @@ func TestTokensFileCuts(t *testing.T) {
 	}
 	vx.Exhaustive(fmt.Sprintf("tokens-file write cut at every %d-th byte offset 0..%d of the encoded list", step, len(encoded)+1))
 }
+
+// ---------------------------------------------------------------------------------------------
+// store faults while the (full) lifecycler is between two states: the transition it could not
+// write is remembered and written at a later heartbeat
+
+func TestTransitionFaultsEnum(t *testing.T) {
+	idx := 0
+	for _, phase := range []string{"join", "leave"} {
+		for _, observe := range []time.Duration{time.Second, 2 * time.Second, 3 * time.Second} {
+			for _, hb := range []time.Duration{2 * time.Second, 4 * time.Second, 7 * time.Second} {
+				for a := 1; a <= 4; a++ {
+					for w := 1; w <= 3; w++ {
+						if phase == "leave" && (observe != 2*time.Second || a > 2) {
+							continue
+						}
+						idx++
+						if !vx.Mine(idx) {
+							continue
+						}
+						failure, hitTransition := transitionFault(t, phase, observe, hb, a, w)
+						vx.Eval(1)
+						if hitTransition {
+							vx.NonTrivial(vx.FP("transition-fault", phase, observe, hb, a, w))
+							vx.Class("transition_write_rejected/"+phase, 1)
+						} else {
+							vx.Class("window_missed_transition/"+phase, 1)
+						}
+						if failure != "" {
+							vx.Failf(t, "TestTransitionFaultsEnum", map[string]any{"phase": phase, "observe": observe.String(), "heartbeat": hb.String(), "first_failing_call": a, "failing_calls": w},
+								"phase=%s observe=%v hb=%v failing calls [%d,%d) after the tokens were picked: %s", phase, observe, hb, a, a+w, failure)
+						}
+					}
+				}
+			}
+		}
+	}
+	vx.Exhaustive("transition faults: full lifecycler, {joining->active after 1/2/3 s of observation, active->leaving} x heartbeat 2/4/7 s x windows of 1..3 failing store calls starting at the 1st..4th call after the tokens were picked (join) or the 1st..2nd call after the stop was requested (leave)")
+}
+
+func transitionFault(t *testing.T, phase string, observe, hb time.Duration, a, w int) (failure string, hit bool) {
+	vx.Bubble(t, func(b *vx.B) {
+		store, closer := consul.NewInMemoryClient(ring.GetCodec(), log.NewNopLogger(), nil)
+		b.Cleanup(func() { _ = closer.Close() })
+		ctx := context.Background()
+		f := fakekv.NewFaulty(store)
+		final := 10 * hb
+		cfg := lcx.Cfg{ID: "ing-1", NumTokens: 4, JoinAfter: time.Second, Observe: observe, HBPeriod: hb, GenSeed: 5, GenSpace: 32, FinalSleep: final, Unregister: false}
+		l, err := lcx.New(cfg, f)
+		if err != nil {
+			failure = err.Error()
+			return
+		}
+		stopped := false
+		b.Cleanup(func() {
+			if !stopped {
+				l.Svc.StopAsync()
+				time.Sleep(final + 10*time.Second)
+			}
+		})
+		if err := services.StartAndAwaitRunning(ctx, l.Svc); err != nil {
+			failure = err.Error()
+			return
+		}
+		want := ring.ACTIVE
+		var tokens []uint32
+		switch phase {
+		case "join":
+			// the tokens are picked (JOINING written) JoinAfter after the start; a failure before that
+			// is a failed start, which the property does not speak about
+			time.Sleep(time.Second + 100*time.Millisecond)
+			vx.Wait()
+			e, ok := entry(store, "ing-1")
+			if !ok || e.State != ring.JOINING || len(e.Tokens) != 4 {
+				failure = fmt.Sprintf("setup: instance not joining with its tokens: %+v", e)
+				return
+			}
+			tokens = e.Tokens
+			calls := f.Calls()
+			f.FailFrom, f.FailTo = calls+a, calls+a+w
+		case "leave":
+			time.Sleep(observe + hb + 2*time.Second)
+			vx.Wait()
+			e, ok := entry(store, "ing-1")
+			if !ok || e.State != ring.ACTIVE || len(e.Tokens) != 4 {
+				failure = fmt.Sprintf("setup: instance not active: %+v", e)
+				return
+			}
+			tokens = e.Tokens
+			calls := f.Calls()
+			f.FailFrom, f.FailTo = calls+a, calls+a+w
+			l.Svc.StopAsync()
+			stopped = true
+			want = ring.LEAVING
+		}
+		armedAt := f.Calls()
+		// wait for the window to close
+		deadline := time.Now().Add(time.Duration(a+w+2) * (hb + observe))
+		for f.Calls() < armedAt+a+w-1 && time.Now().Before(deadline) {
+			time.Sleep(250 * time.Millisecond)
+			vx.Wait()
+		}
+		if f.Calls() < armedAt+a+w-1 {
+			failure = fmt.Sprintf("the lifecycler stopped calling the store: %d calls since the window was armed, window ends after %d", f.Calls()-armedAt, a+w-1)
+			return
+		}
+		if e, ok := entry(store, "ing-1"); ok && e.State != want {
+			hit = true // the window was still open when the lifecycler wanted to write the new state
+		}
+		// "at a later heartbeat": one heartbeat period and one more observation round after the store
+		// accepts writes again (a rejected token verification is repeated after the observe period)
+		time.Sleep(hb + observe + time.Second)
+		vx.Wait()
+		e, ok := entry(store, "ing-1")
+		if !ok {
+			failure = "the instance has no ring entry"
+			return
+		}
+		if e.State != want || fmt.Sprint(e.Tokens) != fmt.Sprint(tokens) {
+			failure = fmt.Sprintf("one heartbeat and one observe period after the store recovered the ring shows %v with tokens %v; the lifecycler was on its way to %v with tokens %v (it reports state %v)", e.State, e.Tokens, want, tokens, l.State())
+			return
+		}
+		if l.State() != want {
+			failure = fmt.Sprintf("the lifecycler reports state %v, the ring %v", l.State(), e.State)
+		}
+		if phase == "leave" {
+			time.Sleep(final + 10*time.Second)
+		}
+	})
+	return failure, hit
+}
